@@ -149,6 +149,8 @@ def c03(r):
 
 def c09(r):
     r.tlc_exhaustive("MCRetriever.tla", "Retriever.cfg", workers=4)
+    if r.tier == "thorough":
+        r.tlc_exhaustive("MCRetriever.tla", "Retriever_big.cfg", workers=16)
     # deviations of the scan that must skip a DA height: moving on when the retries are used up, "from the future" read as "empty"
     for cfg in ("Retriever_giveup.cfg", "Retriever_futureempty.cfg"):
         ok, _ = r.tlc_exhaustive("MCRetriever.tla", cfg, workers=4, expect_ok=False)
